@@ -19,6 +19,7 @@ class Raises:
     anysub: bool = False          # the raised class is `exc` or any subclass
     bind: str | None = None       # name under which the exception value is visible in `ensures`
     fields: dict = field(default_factory=dict)    # attributes of the raised exception: name -> type string
+    fresh: dict = field(default_factory=dict)     # name -> (type, witness expr)
 
 
 @dataclass
